@@ -16,11 +16,16 @@ func c06Model() model.Model {
 	m.AddDef("r", "r", "sub, obj, act")
 	m.AddDef("p", "p", "sub, obj, act")
 	m.AddDef("p", "p2", "sub, obj")
+	m.AddDef("p", "p3", "priority, sub, act") // rules are inserted by priority, the index map is shifted
 	m.AddDef("g", "g", "_, _")
 	m.AddDef("e", "e", "some(where (p.eft == allow))")
 	m.AddDef("m", "m", "g(r.sub, p.sub) && r.obj == p.obj && r.act == p.act")
 	return m
 }
+
+// for the priority definition the first field is a number: b < d < a < c, e does not parse
+var c06Prio = map[string]string{"a": "20", "b": "10", "c": "30", "d": "15", "e": "oops"}
+var c06PrioOn bool
 
 // the small op alphabet for exhaustive histories over three rules A, B, C of arity n
 func c06Alphabet(n int, big bool) []SOp {
@@ -30,6 +35,9 @@ func c06Alphabet(n int, big bool) []SOp {
 			r[i] = fmt.Sprintf("%s%d", s, i)
 		}
 		r[n-1] = "x" // shared last field so that filters can select several rules
+		if c06PrioOn {
+			r[0] = c06Prio[s]
+		}
 		return r
 	}
 	A, B, C := mk("a"), mk("b"), mk("c")
@@ -45,6 +53,8 @@ func c06Alphabet(n int, big bool) []SOp {
 		SOp{Kind: "upd", Rule: A, New: B}, SOp{Kind: "upd", Rule: B, New: C}, SOp{Kind: "upd", Rule: C, New: A},
 		SOp{Kind: "upds", Rules: [][]string{A, B}, News: [][]string{C, mk("d")}},
 		SOp{Kind: "upds", Rules: [][]string{A}, News: [][]string{mk("d")}},
+		// an unchanged pair followed by a pair whose old rule is missing: the rollback must leave A indexed
+		SOp{Kind: "upds", Rules: [][]string{A, mk("d")}, News: [][]string{A, mk("e")}},
 		SOp{Kind: "rmf", FI: 0, Vals: []string{A[0]}}, SOp{Kind: "rmf", FI: n - 1, Vals: []string{"x"}},
 		SOp{Kind: "rmf", FI: 0, Vals: []string{"", B[1]}},
 	)
@@ -66,6 +76,9 @@ func c06Probes(n int) []SOp {
 			r[i] = fmt.Sprintf("%s%d", s, i)
 		}
 		r[n-1] = "x"
+		if c06PrioOn {
+			r[0] = c06Prio[s]
+		}
 		return r
 	}
 	return []SOp{
@@ -77,6 +90,7 @@ func c06Probes(n int) []SOp {
 type storeTarget struct {
 	sec, ptype string
 	n          int
+	prio       bool
 }
 
 func runC06(c *Ctx) {
@@ -84,12 +98,22 @@ func runC06(c *Ctx) {
 	if c.Thorough() {
 		depth = 4
 	}
-	c.Rule = fmt.Sprintf("all histories of depth <= %d over an alphabet of Add/Remove/Update/RemoveFiltered and batch/Ex variants on three rules, for p (arity 3), p2 (arity 2) and g, through the Enforcer API, observing result, GetPolicy order and the exported PolicyMap after every call and HasPolicy/GetFilteredPolicy probes at the end (exhaustive); plus seeded random histories to length 60 over a universe with separator-like fields (',', '$$', NUL, blanks, empty), over-long rules, update chains; non-trivial = at least one call that changed the store and one that reported false; distinct = whole history", depth)
-	targets := []storeTarget{{"p", "p", 3}, {"p", "p2", 2}, {"g", "g", 2}}
+	c.Rule = fmt.Sprintf("all histories of depth <= %d over an alphabet of Add/Remove/Update/RemoveFiltered and batch/Ex variants on three rules, for p (arity 3), p2 (arity 2), g and a definition with a priority field (insertion by priority shifts the index map), through the Enforcer API, observing result, GetPolicy order and the exported PolicyMap after every call and HasPolicy/GetFilteredPolicy probes at the end (exhaustive); plus seeded random histories to length 60 over a universe with separator-like fields (',', '$$', NUL, blanks, empty), over-long rules, update chains; non-trivial = at least one call that changed the store and one that reported false; distinct = whole history", depth)
+	targets := []storeTarget{{"p", "p", 3, false}, {"p", "p2", 2, false}, {"g", "g", 2, false}, {"p", "p3", 3, true}}
 	caseNo := 0
 	for _, t := range targets {
+		c06PrioOn = t.prio
 		alpha := c06Alphabet(t.n, false)
+		if t.prio {
+			// additions in every priority order, then removal / update of what was inserted in the middle
+			alpha = append(alpha, SOp{Kind: "add", Rule: []string{"15", "d1", "x"}}, SOp{Kind: "rm", Rule: []string{"15", "d1", "x"}},
+				SOp{Kind: "upd", Rule: []string{"15", "d1", "x"}, New: []string{"15", "d9", "x"}}, SOp{Kind: "add", Rule: []string{"oops", "e1", "x"}})
+		}
 		probes := c06Probes(t.n)
+		hdr := "-"
+		if t.prio {
+			hdr = "0"
+		}
 		seq := make([]int, 0, depth)
 		var rec func()
 		run := func() {
@@ -98,13 +122,55 @@ func runC06(c *Ctx) {
 				panic(err)
 			}
 			caseNo++
-			c.W.Op(fmt.Sprintf("case store %d -", t.n), "#")
+			c.W.Op(fmt.Sprintf("case store %d %s", t.n, hdr), "#")
 			changed, refused := false, false
 			var lines []string
+			dupSeen := false // findings D11 / D12: once two listed rules share a key the index is known to be off
 			for _, i := range seq {
+				// finding D12: an update onto a rule that is already listed (even one that is rolled back)
+				{
+					listedNow := map[string]bool{}
+					for _, r := range e.GetModel()[t.sec][t.ptype].Policy {
+						listedNow[strings.Join(r, ",")] = true
+					}
+					o := alpha[i]
+					news, olds := o.News, o.Rules
+					if o.Kind == "upd" {
+						news, olds = [][]string{o.New}, [][]string{o.Rule}
+					}
+					if o.Kind == "upd" || o.Kind == "upds" {
+						for k, nr := range news {
+							if listedNow[strings.Join(nr, ",")] && (k >= len(olds) || strings.Join(olds[k], ",") != strings.Join(nr, ",")) {
+								dupSeen = true
+							}
+						}
+					}
+				}
 				obs := execStore(e, t.sec, t.ptype, alpha[i])
 				c.W.Op(alpha[i].Line(), obs)
 				lines = append(lines, alpha[i].Line())
+				// on the implementation itself: present exactly when listed — every listed rule is indexed
+				// at its slot and nothing else is indexed
+				ast := e.GetModel()[t.sec][t.ptype]
+				keys := map[string]bool{}
+				for _, r := range ast.Policy {
+					k := strings.Join(r, ",")
+					if keys[k] {
+						dupSeen = true
+					}
+					keys[k] = true
+				}
+				if !dupSeen {
+					bad := len(ast.PolicyMap) != len(ast.Policy)
+					for idx, r := range ast.Policy {
+						if j, ok := ast.PolicyMap[strings.Join(r, ",")]; !ok || j != idx {
+							bad = true
+						}
+					}
+					if bad {
+						c.Direct("the index map and the rule list disagree: a listed rule is not indexed at its slot (HasPolicy / RemovePolicy / UpdatePolicy then act on the wrong rule)", fmt.Sprintf("%s/%s: %s\npolicy=%v index=%v", t.sec, t.ptype, strings.Join(lines, " ; "), ast.Policy, ast.PolicyMap))
+					}
+				}
 				if strings.HasPrefix(obs, "true") {
 					changed = true
 				}
@@ -168,6 +234,9 @@ func c06Random(c *Ctx, t storeTarget, length int) {
 		}
 		return []string{"alice", "bob", "carol", "d1", "d2", "read", "write"}[rng.Intn(7)]
 	}
+	prioField := func() string {
+		return []string{"1", "2", "3", "5", "8", "-1", "+4", "x", ""}[rng.Intn(9)]
+	}
 	pool := [][]string{}
 	newRule := func() []string {
 		n := t.n
@@ -177,6 +246,9 @@ func c06Random(c *Ctx, t storeTarget, length int) {
 		r := make([]string, n)
 		for i := range r {
 			r[i] = field()
+		}
+		if t.prio {
+			r[0] = prioField()
 		}
 		pool = append(pool, r)
 		return r
@@ -191,7 +263,11 @@ func c06Random(c *Ctx, t storeTarget, length int) {
 		return e.GetModel()[t.sec][t.ptype].Policy
 	}
 	key := func(r []string) string { return strings.Join(r, ",") }
-	c.W.Op(fmt.Sprintf("case store %d -", t.n), "#")
+	hdr := "-"
+	if t.prio {
+		hdr = "0"
+	}
+	c.W.Op(fmt.Sprintf("case store %d %s", t.n, hdr), "#")
 	var lines []string
 	changed, refused := false, false
 	for i := 0; i < length; i++ {
